@@ -116,7 +116,7 @@ theorem saveCell_ok (E : FloatExt) (m : Str) (t : Ty) (fill : PyVal) (fv : Val) 
   cases t with
   | bool =>
     cases d <;> simp [CellOK] at hshape
-    simp [saveCell, parseCell, hstrip, bind, Except.bind, pure, Except.pure]
+    simp [saveCell, trialParse, substitute, parseCell, hstrip, bind, Except.bind, pure, Except.pure]
   | str =>
     cases d <;> simp [CellOK] at hshape
     rename_i s
@@ -126,7 +126,7 @@ theorem saveCell_ok (E : FloatExt) (m : Str) (t : Ty) (fill : PyVal) (fv : Val) 
     subst hfv
     have hs : strip s = s := hshape.1
     simp only [pyStr] at hstrip
-    simp [saveCell, parseCell, pyStr, hstrip, construct, cellEqFill, bind, Except.bind, pure, Except.pure, ite_ok]
+    simp [saveCell, trialParse, substitute, parseCell, pyStr, hstrip, construct, cellEqFill, bind, Except.bind, pure, Except.pure, ite_ok]
   | int =>
     cases d <;> simp [CellOK] at hshape
     rename_i i
@@ -136,7 +136,7 @@ theorem saveCell_ok (E : FloatExt) (m : Str) (t : Ty) (fill : PyVal) (fv : Val) 
       simp [pyStr, (pyStrInt_numText i).strip, construct, pyIntOfStr_pyStrInt, optErr, Except.map]
     cases fv with
     | int j =>
-      simp [saveCell, parseCell, hstrip, hparse, hsv, cellEqFill, bind, Except.bind, pure, Except.pure, ite_ok]
+      simp [saveCell, trialParse, substitute, parseCell, hstrip, hparse, hsv, cellEqFill, bind, Except.bind, pure, Except.pure, ite_ok]
     | _ =>
       exfalso
       cases fill <;> simp [construct, optErr, Except.map] at hsv <;>
@@ -150,7 +150,7 @@ theorem saveCell_ok (E : FloatExt) (m : Str) (t : Ty) (fill : PyVal) (fv : Val) 
       simp [pyStr, (hE.frepr_text x).strip, construct, hE.fparse_frepr x hshape, optErr, Except.map]
     cases fv with
     | float y =>
-      simp [saveCell, parseCell, hstrip, hparse, hsv, cellEqFill, partEq, bind, Except.bind, pure, Except.pure, ite_ok]
+      simp [saveCell, trialParse, substitute, parseCell, hstrip, hparse, hsv, cellEqFill, partEq, bind, Except.bind, pure, Except.pure, ite_ok]
     | _ =>
       exfalso
       cases fill <;> simp [construct, optErr, Except.map] at hsv <;>
@@ -170,7 +170,7 @@ theorem saveCell_ok (E : FloatExt) (m : Str) (t : Ty) (fill : PyVal) (fv : Val) 
         simp only [partEq] at hpat ⊢
         cases h1 : fIsNaN a <;> cases h2 : fIsNaN b <;> cases h3 : fIsNaN c <;> cases h4 : fIsNaN e <;>
           cases h5 : fEq a c <;> cases h6 : fEq b e <;> simp_all
-      simp only [saveCell, parseCell, hstrip, if_false, hparse, hsv, cellEqFill, bind, Except.bind, pure, Except.pure]
+      simp only [saveCell, trialParse, substitute, parseCell, hstrip, if_false, hparse, hsv, cellEqFill, bind, Except.bind, pure, Except.pure]
       simp only [hcond]
       simp [ite_ok]
     | _ =>
